@@ -52,6 +52,10 @@ T = [
     "any(f() for f in [r.c.fire])", "any(x.fire() for x in [r.c])", "any(lower() for lower in [r.c.fire])", "any(f() for f in [r.s.upper])",
     "any(any(g() for g in [f]) for f in [r.c.fire])", "all(x.clear() for x in [r.l])", "any(x.append('z') for x in [r.l])",
     "any(f() for f in (r.c.fire, r.c.fire))", "any(f.fire() for f in [r.c] for g in [1])", "any(g.fire() for f in [1] for g in [r.c])",
+    # generator variables named like a whitelisted field type or module
+    "any(string(1) for string in [r.c.fire])", "any(net.ipv4.Subnet(1) for net in [r.c])", "any(varint() for varint in [r.c.fire])",
+    "any(net.ipaddress('1.1.1.1') for net in [r.c])", "any(path() for path in (r.c.fire,))", "all(digest() for digest in [r.s.upper])",
+    "1 in (f() for f in [r.c.fire])", "1 not in (f() for f in [r.c.fire])",
     # whitelisted helper names reached as attributes
     "r.c.lower()", "'A'.lower()", "r.s.lower()", "r.c.name()", "r.c.str()", "r.s.upper.lower()", "r.c.any()", "r.c.field_contains()",
     "r.sub.c.lower()", "lower(r.s).lower()", "r.c.names()", "r.c.has_field('x')", "r.l.all()", "r.c.repr()",
@@ -227,6 +231,8 @@ def _called_from_selector():
 def run_case(case):
     from flow.record.selector import Selector
 
+    if case.get("kind") == "pure":
+        return run_pure(case)
     expr = case["expr"]
     h = jhash(case)
     label = classify(expr)
@@ -239,7 +245,10 @@ def run_case(case):
         ARMED[0] = True
         try:
             try:
-                Selector(expr).match(rec)
+                if case.get("door") == "explain":
+                    Selector(expr).explain_selector(rec)
+                else:
+                    Selector(expr).match(rec)
             except RecursionError:
                 raise
             except BaseException as e:  # noqa: BLE001
@@ -253,7 +262,7 @@ def run_case(case):
                 os.unlink(p)
         after = obs(rec)
         outs.append("%s:%s:%s" % (label, "raise" if raised is not None else "value", "EVENT" if events or trip else "quiet"))
-        sig_t = case["t_class"]
+        sig_t = case["t_class"] + (":explain" if case.get("door") == "explain" else "")
         if label == "refused":
             if events or trip:
                 viol.append(("C09:invoked:%s:%s" % (sig_t, (events or ["tripwire"])[0]), case, {"expr": expr, "events": events[:5], "record": i,
@@ -309,11 +318,65 @@ def t_class(t):
     return "+".join(out[:3]) or "plain"
 
 
+PURE = [  # allowed programs: every helper on every kind of field; the record must come out unchanged
+    "lower(r.m)", "upper(r.m)", "lower(r.ml)", "upper(r.ml)", "lower(r.ml) == ['alpha', 'beta']", "'alpha' in lower(r.ml)", "str(r.ml)", "repr(r.ml)",
+    "field_contains(r, ['ml'], ['alpha'])", "field_equals(r, ['ml', 'm'], ['ALPHA'])", "field_contains(r, ['m', 'ml'], ['Be'], nocase=False)",
+    "field_regex(r, ['m'], 'M.x')", "field_contains(r, ['m'], ['mix'], word_boundary=True)", "any(x == 'Alpha' for x in r.ml)", "all(lower(x) for x in r.ml)",
+    "name(r)", "names(r)", "get_type(r.ml)", "has_field(r, 'ml')", "r.ml + ['x'] == 1", "r.ml * 2 == 1", "r.m + 'x' == 1", "r.ml == r.ml", "r.sub.ml == ['Q']",
+    "lower(r.sub.ml)", "upper(r.sub.m)", "field_contains(r.sub, ['ml'], ['q'])", "Type.string == 'MiX'", "'Mi' in Type.string", "field_equals(r, Type.string, ['mix'])",
+    "any(lower(x) == 'beta' for x in r.ml) and any(upper(x) == 'ALPHA' for x in r.ml)", "fields('string')", "r.ml and r.m", "not r.ml", "r.n + 1 == 2",
+    "net.ipaddress('1.2.3.4') == r.ml", "string('x') in r.ml", "r.ml in [r.ml]", "(r.ml, r.m) == 1", "[r.ml] == 1",
+]
+_PURE_RECS = []
+
+
+def pure_records():
+    if not _PURE_RECS:
+        from flow.record import RecordDescriptor
+        import datetime
+
+        gen = datetime.datetime(2020, 1, 1, tzinfo=datetime.timezone.utc)
+        sd = RecordDescriptor("c9/psub", [("string", "m"), ("string[]", "ml")])
+        d = RecordDescriptor("c9/pure", [("string", "m"), ("string[]", "ml"), ("varint", "n"), ("record", "sub")])
+        _PURE_RECS.append(d(m="MiX", ml=["Alpha", "BETA"], n=1, sub=sd(m="Sub", ml=["Q"], _generated=gen), _generated=gen))
+    return _PURE_RECS
+
+
+def run_pure(case):
+    from flow.record.selector import CompiledSelector, Selector
+
+    h = jhash(case)
+    viol = []
+    outs = []
+    for rec in pure_records():
+        for en, cls in (("interpreted", Selector), ("compiled", CompiledSelector), ("explain", None)):
+            before = obs(rec)
+            try:
+                if cls is None:
+                    Selector(case["expr"]).explain_selector(rec)
+                else:
+                    cls(case["expr"]).match(rec)
+                outs.append("pure:value")
+            except RecursionError:
+                raise
+            except Exception:  # noqa: BLE001
+                outs.append("pure:raise")
+            if obs(rec) != before:
+                viol.append(("C09:record-modified:%s:allowed-program" % en, case, {"expr": case["expr"], "before": before[3][:3], "after": obs(rec)[3][:3]}))
+                _PURE_RECS[:] = []
+                pure_records()
+    return {"ev": 3, "h": h, "nt": True, "out": outs, "viol": viol, "count": {"purity_programs": 1}}
+
+
 def cases(tier):
+    for e in PURE:
+        yield {"expr": e, "kind": "pure", "t_class": "pure"}
     for t in T:
         tc = t_class(t)
         for cn, c in CONTEXTS.items():
             yield {"expr": c % (t if cn == "bare" else "(%s)" % t if not t.startswith("(") else t), "t": t, "ctx": cn, "t_class": tc}
+        yield {"expr": t, "t": t, "ctx": "bare", "t_class": tc, "door": "explain"}
+        yield {"expr": "(%s) == 1" % t, "t": t, "ctx": "cmp-l", "t_class": tc, "door": "explain"}
     if tier == "thorough":
         for t in T:
             tc = t_class(t)
